@@ -13,6 +13,16 @@ open Sif.Auth Sif.AuthTypes
 def refusedUnchanged (st : AuthState) (h : Handler) (signer : Addr) (res : Outcome) (changed : Bool) : Bool :=
   holds st h.store h.role signer || (res == .err && !changed)
 
+/-- `AccAddress.String()` of the account a (valid, hence single-case) bech32 spelling denotes: the
+    lower-case form.  Handlers decode `msg.Signer` and hand `IsAdminAccount` the account, which is
+    compared with the stored strings through `.String()`. -/
+def canonAddr (spelling : String) : String := spelling.toLower
+
+/-- "removing a role takes effect for the very next message", on the implementation's own answer:
+    `still` = what the real `IsAdminAccount(role, account)` says right after an accepted
+    `RemoveAccount(role, spelling-of-account)`. -/
+def removalEffective (still : Bool) : Bool := !still
+
 /-- a refused message never changes state, authorised or not (keeper level, no wrapper) -/
 def errUnchanged (res : Outcome) (changed : Bool) : Bool := res == .ok || !changed
 
